@@ -185,7 +185,14 @@ def main() -> None:  # noqa: C901
     chk.assume("conn.close() and shutil.rmtree(ignore_errors=True) do not raise; DuckDB close() releases file handles")
     chk.assume("execute_queries / loaders use only the connection they are given (their DROP/unregister clean-up "
                "concerns objects inside that connection, which die with it)")
+    chk.assume("history clause (vc.pyhistory): structural - no path is executed, every call may raise any exception; covers "
+               "REBINDING stores of module / class attributes reachable from run, run_sdmx, semantic_analysis; in-place "
+               "mutations of shared containers are left to C17; context managers do not swallow exceptions; class attributes "
+               "are written only as cls.a = .. / Class.a = ..; os.environ is constant during one call; "
+               "interpreter.visit(ast) enters visit_Start because create_ast is annotated -> Start")
     chk.trust("vc.pyvc contextmanager/try/finally semantics (cross-checked by native fault-injection replay)")
+    chk.trust("vc.pyshared name resolution / receiver-class-sensitive walker, vc.pyhistory must-store flow and fixpoints "
+              "(cross-checked by the native replays of every refuted store site and by mutations/mut_C16_*)")
     chk.finish()
 
 
